@@ -148,6 +148,70 @@ func (e *Engine) check(mux bool, pkts []pkt, st *sim.Stream, strict bool) (oc *o
 	return nil
 }
 
+// faultWriter is the sender's transport: Write call number failAt fails with
+// (0, error) and writes nothing.
+type faultWriter struct {
+	buf    bytes.Buffer
+	calls  int
+	failAt int
+}
+
+type timeoutErr struct{}
+
+func (timeoutErr) Error() string   { return "simulated write timeout" }
+func (timeoutErr) Timeout() bool   { return true }
+func (timeoutErr) Temporary() bool { return true }
+
+func (w *faultWriter) Write(p []byte) (int, error) {
+	k := w.calls
+	w.calls++
+	if k == w.failAt {
+		return 0, timeoutErr{}
+	}
+	return w.buf.Write(p)
+}
+
+// writeAll sends the packets through ONE writer. A packet whose WritePacket
+// fails is retried once (retry) or given up. It returns the packets whose
+// WritePacket returned nil, and whether every failed call left the wire as it was.
+func writeAll(mux bool, pkts []pkt, w *faultWriter, retry bool) (sent []pkt, clean bool) {
+	clean = true
+	var sw *slipb.Writer
+	var mw *slipb.SlipMuxWriter
+	if mux {
+		mw = slipb.NewSlipMuxWriter(w)
+	} else {
+		sw = slipb.NewWriter(w)
+	}
+	write := func(p pkt) error {
+		if mux {
+			return mw.WritePacket(p.Frame, p.Payload)
+		}
+		return sw.WritePacket(p.Payload)
+	}
+	for _, p := range pkts {
+		before := w.buf.Len()
+		err := write(p)
+		if err != nil {
+			if w.buf.Len() != before {
+				clean = false
+			}
+			if !retry {
+				continue
+			}
+			before = w.buf.Len()
+			if err = write(p); err != nil {
+				if w.buf.Len() != before {
+					clean = false
+				}
+				continue
+			}
+		}
+		sent = append(sent, p)
+	}
+	return sent, clean
+}
+
 func (e *Engine) Run(t *tape.Tape, keep bool) *sim.Result {
 	res := sim.NewResult()
 	var log tape.Log
@@ -158,7 +222,6 @@ func (e *Engine) Run(t *tape.Tape, keep bool) *sim.Result {
 		n = t.Range(4, 12)
 	}
 	pkts := make([]pkt, n)
-	wire := &bytes.Buffer{}
 	for i := range pkts {
 		if mux {
 			var f byte
@@ -184,20 +247,17 @@ func (e *Engine) Run(t *tape.Tape, keep bool) *sim.Result {
 				p[0] = f // IP frames are not prepended: the payload's first byte is the frame byte
 			}
 			pkts[i] = pkt{f, p}
-			if err := slipb.NewSlipMuxWriter(wire).WritePacket(f, p); err != nil {
-				res.Trouble = "writer error on bytes.Buffer: " + err.Error()
-				return res
-			}
 		} else {
-			p := genPayload(t, 1)
-			pkts[i] = pkt{0, p}
-			if err := slipb.NewWriter(wire).WritePacket(p); err != nil {
-				res.Trouble = "writer error on bytes.Buffer: " + err.Error()
-				return res
-			}
+			pkts[i] = pkt{0, genPayload(t, 1)}
 		}
 	}
-	w := wire.Bytes()
+	// one writer for the whole stream, as a sender uses it
+	wire := &faultWriter{failAt: -1}
+	if sent, _ := writeAll(mux, pkts, wire, false); len(sent) != len(pkts) {
+		res.Trouble = "writer error on a writer that never fails"
+		return res
+	}
+	w := wire.buf.Bytes()
 	mode := "slip"
 	if mux {
 		mode = "slipmux"
@@ -230,6 +290,36 @@ func (e *Engine) Run(t *tape.Tape, keep bool) *sim.Result {
 		return fail(oc, "no fault", "nofault:"+oc.class)
 	}
 	res.Steps++
+	// 1b. write faults: every Write call of the sender's stream fails once with
+	// (0, timeout) - nothing reaches the wire - and the sender either retries the
+	// packet on the same writer or gives it up and goes on. What a fault-free reader
+	// then delivers must be exactly the packets whose WritePacket returned nil.
+	for k := 0; k < wire.calls; k++ {
+		for _, retry := range []bool{true, false} {
+			fw := &faultWriter{failAt: k}
+			sent, clean := writeAll(mux, pkts, fw, retry)
+			res.Steps++
+			res.Faults["write_error"]++
+			if !clean {
+				// the failed WritePacket had already put part of the packet on the wire:
+				// what the receiver should make of it is not specified
+				res.Probes["write_fault_left_partial_packet"]++
+				continue
+			}
+			st := sim.NewStream(nil)
+			st.Buf = fw.buf.Bytes()
+			st.SpinLimit = len(st.Buf) + 2
+			if oc := e.check(mux, sent, st, !mux); oc != nil {
+				how := "gives the packet up"
+				if retry {
+					how = "retries the packet"
+				}
+				return fail(oc, fmt.Sprintf("Write call %d of the stream fails with (0, timeout), the sender %s: wire %x", k, how, fw.buf.Bytes()),
+					fmt.Sprintf("write_fault:retry=%v:%s", retry, oc.class))
+			}
+		}
+	}
+	res.Probes["write_fault_executions"] += 2 * wire.calls
 	// 2. complete single-stall enumeration: every position x every kind.
 	kinds := []int{sim.StallNil, sim.StallEOF, sim.StallTimeout}
 	if mux {
